@@ -23,7 +23,8 @@ type RefPromoVol struct {
 
 type RefPricing struct {
 	BaseBig *big.Int // base price, arbitrary size
-	Base    int64    // base price in stake (truncated), as the chain's mock token scales 1:1
+	Base    int64    // base price (truncated), in units of Denom: the harness's tokens scale 1:1
+	Denom   string   // the token the price is quoted in: "stake" or "point"
 	ByTime []RefPromoTime
 	ByVol  []RefPromoVol
 }
@@ -50,10 +51,15 @@ func ParseRefPricing(text string) (RefPricing, error) {
 	if err := json.Unmarshal([]byte(text), &raw); err != nil {
 		return p, err
 	}
-	if !strings.HasSuffix(raw.Price, "stake") {
-		return p, fmt.Errorf("price not in stake: %q", raw.Price)
+	switch {
+	case strings.HasSuffix(raw.Price, "stake"):
+		p.Denom = "stake"
+	case strings.HasSuffix(raw.Price, "point"):
+		p.Denom = "point"
+	default:
+		return p, fmt.Errorf("price not in a known token: %q", raw.Price)
 	}
-	num := strings.TrimSuffix(raw.Price, "stake")
+	num := strings.TrimSuffix(raw.Price, p.Denom)
 	r, ok := new(big.Rat).SetString(num)
 	if !ok || r.Sign() < 0 {
 		return p, fmt.Errorf("bad price %q", raw.Price)
@@ -183,14 +189,98 @@ func max64(a, b int64) int64 {
 }
 
 // MinDepositFor: max(global minimum, base * multiple)
+//
+// base is the price's amount of the base denomination (InBase): a price quoted in another token
+// contributes nothing, only the global minimum remains.
 func (c Config) MinDepositFor(base int64) int64 {
-	if c.baseDenom() != "stake" {
-		// prices are in "stake": their amount of the base denomination is zero, only the global minimum remains
-		base = 0
-	}
 	m := base * c.Multiple
 	if c.MinDeposit != nil && *c.MinDeposit > m {
 		m = *c.MinDeposit
 	}
 	return m
+}
+
+// ---------------------------------------------------------------------------------------------
+// prices quoted in another token than the base denomination
+
+// rate: the exchange rate the host's exchange-rate service answers with (nil: no such service)
+func (c Config) rate() *big.Rat {
+	if c.ExchangeRate == "" {
+		return nil
+	}
+	r, ok := new(big.Rat).SetString(c.ExchangeRate)
+	if !ok {
+		panic("harness: bad exchange rate " + c.ExchangeRate)
+	}
+	return r
+}
+
+// InBase: the price's amount of the base denomination (what the minimum deposit is computed from)
+func (c Config) InBase(rp RefPricing) int64 {
+	if rp.Denom != c.baseDenom() {
+		return 0
+	}
+	return rp.Base
+}
+
+// Priceable: the price can be expressed in the base denomination
+func (c Config) Priceable(rp RefPricing) bool {
+	return rp.Denom == c.baseDenom() || c.rate() != nil
+}
+
+// FeeOf is the fee in the base denomination: max(1, floor(base * dT * dV [* rate])).
+func (c Config) FeeOf(rp RefPricing, tNs int64, vol uint64) int64 {
+	if rp.Denom == c.baseDenom() {
+		return rp.Fee(tNs, vol)
+	}
+	r := new(big.Rat).SetInt64(rp.Base)
+	r.Mul(r, rp.DiscountAt(tNs))
+	r.Mul(r, rp.DiscountFor(vol))
+	r.Mul(r, c.rate())
+	f := new(big.Int).Quo(r.Num(), r.Denom()).Int64()
+	if f < 1 {
+		f = 1
+	}
+	return f
+}
+
+// FeeOK: got is the fee of the pricing under the stated tolerance (see FeeAcceptable)
+func (c Config) FeeOK(rp RefPricing, tNs int64, vol uint64, got int64) bool {
+	if got == c.FeeOf(rp, tNs, vol) {
+		return true
+	}
+	if rp.Denom == c.baseDenom() {
+		return rp.FeeAcceptable(tNs, vol, big.NewInt(got))
+	}
+	// exchanged price: three 18-decimal multiplications, each rounded to the nearest; the last
+	// one scales the earlier rounding errors by the rate. Stated tolerance: the neighbouring
+	// integer is accepted when the exact product lies within (rate+1)*10^-18 of it.
+	r := new(big.Rat).SetInt64(rp.Base)
+	r.Mul(r, rp.DiscountAt(tNs))
+	r.Mul(r, rp.DiscountFor(vol))
+	r.Mul(r, c.rate())
+	eps := new(big.Rat).Add(c.rate(), ratOne)
+	eps.Mul(eps, new(big.Rat).SetFrac(big.NewInt(1), new(big.Int).Exp(big.NewInt(10), big.NewInt(18), nil)))
+	g := new(big.Rat).SetInt64(got)
+	lo, hi := new(big.Rat).Sub(r, eps), new(big.Rat).Add(r, eps)
+	// got == floor(x) for some x in [lo, hi]  <=>  got <= hi and got+1 > lo
+	return got >= 1 && g.Cmp(hi) <= 0 && new(big.Rat).Add(g, ratOne).Cmp(lo) > 0
+}
+
+// BaseInBase: the undiscounted price expressed in the base denomination (bound of every fee)
+func (c Config) BaseInBase(rp RefPricing) int64 {
+	if rp.Denom == c.baseDenom() {
+		return rp.Base
+	}
+	r := new(big.Rat).SetInt64(rp.Base)
+	r.Mul(r, c.rate())
+	return new(big.Int).Quo(r.Num(), r.Denom()).Int64()
+}
+
+// balIn: an account's balance of the base denomination ("stake" is the only coin that exists)
+func (c Config) balIn(s *Snapshot, addrHex string) int64 {
+	if c.baseDenom() != "stake" {
+		return 0
+	}
+	return s.Bal[addrHex]
 }
